@@ -327,6 +327,17 @@ def drive(watch, out, rng, spec, tier):
             n2 = step("Rich%sEditor.upsert_all_unit_settings" % ("Unis" if isinstance(units, edit_h_unis()[0]) else "Unix"), ed.upsert_all_unit_settings, us, units)
             if n2 is not None:
                 cur = step("RichChkEditor.replace_chk_section (units)", RichChkEditor().replace_chk_section, n2, cur) or cur
+            # a setting that carries an expansion weapon (id >= 100), handed to BOTH unit editors (the original-game
+            # section has no room for it; whatever the editor does about that, the caller's setting stays as it was)
+            bw = next(((u, ws) for u, ws in sorted(edit_h.unit_weapons().items()) if u < 228 and any(w >= 100 for w in ws)), None)
+            if bw is not None:
+                setting = real.unit({"unit": bw[0], "hp": (300, 1), "shield": 10, "armor": 2, "build": 600, "mineral": 125, "gas": 125, "name": None,
+                                     "weapons": [(w, 77, 5) for w in bw[1]], "default": False})
+                watch.remember("a unit setting with an expansion weapon", setting)
+                step("RichUnisEditor.upsert_unit_setting (expansion weapon)", RichUnisEditor().upsert_unit_setting, setting, find(cur, edit_h_unis()[0]) or units) if find(cur, edit_h_unis()[0]) is not None else None
+                step("RichUnisEditor.upsert_all_unit_settings (expansion weapon)", RichUnisEditor().upsert_all_unit_settings, [setting], find(cur, edit_h_unis()[0])) if find(cur, edit_h_unis()[0]) is not None else None
+                if find(cur, edit_h_unis()[1]) is not None:
+                    step("RichUnixEditor.upsert_unit_setting (expansion weapon)", RichUnixEditor().upsert_unit_setting, setting, find(cur, edit_h_unis()[1]))
         # the optional second argument of encode_chk: a metadata lookup whose keys match PlayWav paths exactly,
         # in another letter case, or not at all (the save may raise; the lookup must come back unchanged)
         if wav is not None and trig is not None:
